@@ -125,9 +125,10 @@ Fixpoint failing_row (A : arr) (r c : Z) (e : list (option T)) : list (Z * Z) :=
   | None :: e' => (r, c) :: failing_row A r (c + 1) e'
   end.
 
-Definition check_case (k : ccase) (rows : list Z) (expected : list (list (option T))) : list (Z * Z) :=
+Definition check_case (k : ccase) (cmps : list (list Z * list (list (option T)))) : list (list (Z * Z)) :=
   let A := run_frames_fo k in
-  concat (Frames.map2 (fun (r : Z) (e : list (option T)) => failing_row A r (k_base_first k) e) rows expected).
+  map (fun re => concat (Frames.map2 (fun (r : Z) (e : list (option T)) => failing_row A r (k_base_first k) e)
+                                     (fst re) (snd re))) cmps.
 
 (* debugging aid: the model's numbers themselves *)
 Definition dump_case (k : ccase) (rows : list Z) :=
